@@ -6,7 +6,7 @@
 (* UFixed raws are naturals.  Rationals are compared after scaling to a    *)
 (* common power of two (all integers stay far below 2^31).                 *)
 (***************************************************************************)
-EXTENDS Integers
+EXTENDS Integers, Sequences
 
 P2(n) == 2 ^ n
 Width(l, r) == l - r + 1
@@ -46,4 +46,31 @@ Resize(signed, raw, r1, l2, r2, round, saturate) ==
 AddExact(ra, a, rb, b, base) == Scale(ra, a, base) + Scale(rb, b, base)
 SubExact(ra, a, rb, b, base) == Scale(ra, a, base) - Scale(rb, b, base)
 MulExact(ra, a, rb, b) == ra * rb                    \* at exponent a + b
+
+\* ---- one recorded / observed operation against the definitions above
+\* c = <<op, signed(0/1), l1, r1, raw1, l2, r2, raw2, p1, p2, lo, ro, rawo>>
+\*  add/sub/mul: operand 2 = second operand;  resize: l2:r2 = target format, p1 = round (0/1), p2 = saturate (0/1);
+\*  eq: rawo = 1/0;  conv: operand 1 converted to format l2:r2
+CaseOk(c) ==
+  LET op == c[1] sg == c[2] = 1
+      l1 == c[3] r1 == c[4] n1 == c[5] l2 == c[6] r2 == c[7] n2 == c[8]
+      lo == c[11] ro == c[12] no == c[13]
+      base == MinI(MinI(r1, r2), ro)
+      inRange == no >= MinRaw(sg, lo, ro) /\ no <= MaxRaw(sg, lo, ro)
+  IN
+  CASE op = "add" -> inRange /\ Scale(no, ro, base) = AddExact(n1, r1, n2, r2, base)
+    [] op = "sub" ->
+         LET exact == SubExact(n1, r1, n2, r2, base) IN
+         IF sg \/ exact >= 0 THEN inRange /\ Scale(no, ro, base) = exact
+         ELSE \* "UFixed subtraction wraps modulo the result range when the difference is negative"
+              inRange /\ ro <= base + 0 /\ Scale(no, ro, base) = exact + P2(lo + 1 - base)
+    [] op = "mul" -> inRange /\ (LET b2 == MinI(r1 + r2, ro) IN Scale(no, ro, b2) = Scale(MulExact(n1, r1, n2, r2), r1 + r2, b2))
+    [] op = "resize" -> lo = l2 /\ ro = r2 /\ no = Resize(sg, n1, r1, l2, r2, c[9] = 1, c[10] = 1)
+    [] op = "conv" -> \* construction from another format: the number is preserved whenever it is representable
+         LET exactRaw == IF r2 <= r1 THEN n1 * P2(r1 - r2) ELSE -999999
+             representable == r2 <= r1 /\ exactRaw >= MinRaw(sg, l2, r2) /\ exactRaw <= MaxRaw(sg, l2, r2)
+         IN ~representable \/ (lo = l2 /\ ro = r2 /\ no = exactRaw)
+    [] op = "eq" -> (no = 1) <=> (Scale(n1, r1, MinI(r1, r2)) = Scale(n2, r2, MinI(r1, r2)))
+    [] OTHER -> FALSE
+
 =============================================================================
